@@ -39,3 +39,15 @@ Proof. exact proj8_circuit. Qed.
 Theorem C02_bool_is_2valued : forall ops (e : env bool) k,
   exec_ops spec_prim ops (fun j => code_of_bool (e j)) k = code_of_bool (exec_ops prim_fn ops e k).
 Proof. exact bool_circuit. Qed.
+
+(** gate by gate: for EVERY well-formed acyclic netlist and EVERY multi-valued stimulus the scheduler's op list, executed
+    with the documented operator composition [spec_prim] per opcode, satisfies every node's equation -- the captured value of a
+    port or state element is the composition of the documented operators along the netlist (instance of the C01 main
+    theorem in the value domain [code]); with C02_dispatch8_spec / C02_dispatch4_spec this is what c_prop computes per lane *)
+From KV Require Import Model.Netlist Model.NetlistWf Model.SimOps Model.AllocCheck Model.NetlistSem Model.WaveOps.
+From KV Require Proofs.SemProofs.
+Definition sem8_lut (l : N) (a b c d : code) : code :=
+  match prim_of l with Some p => spec_prim p a b c d | None => a end.
+Theorem C02_gate_by_gate : forall c (stim : nat -> code), wf_netlist c -> comb_acyclic c ->
+  solution sem8_lut Zero c stim (iexec sem8_lut (fun x => x) (build_ops c false) (init_env Zero c stim)).
+Proof. intros c stim. exact (KV.Proofs.SemProofs.build_ops_solution sem8_lut Zero c stim). Qed.
